@@ -24,6 +24,15 @@ CHECKS = {
                   "generated delivery sequences.",
                   "explicit TLA+ specification (Protocol.tla) enumerated by TLC; TLC-generated cases replayed "
                   "on the real Controller and client"),
+    "C07": _entry("C07",
+                  "Sockets.tla is a descriptor-level model (daemon fd table with inheritable flags, Arbiter.sockets, "
+                  "Popen's close_fds / inheritable rules, a fresh bound socket per worker for so_reuseport); TLC "
+                  "checks Same/Stable/NoLeak exhaustively over histories of death, restart, reload, stop-start, incr, "
+                  "decr and generates histories; each history is run on a REAL circusd with real workers that dump "
+                  "/proc/self/fd, the daemon's descriptors are read from /proc, every managed address is probed with "
+                  "connect(), and the observed states are validated by TLC against the model (SocketsTrace.tla).",
+                  "explicit TLA+ specification (Sockets.tla) model-checked with TLC; TLC histories run on a real "
+                  "circusd; observed states trace-validated with TLC"),
     "C12": _entry("C12",
                   "ReloadConfig.tla models configuration versions, the daemon's per-watcher snapshots and "
                   "reload_from_config's diff as coded; TLC checks Same/Keep/Delta/Idem exhaustively over edit "
